@@ -274,3 +274,10 @@ Theorem C07_accepted_close : forall m e E l u v,
   I.convert E = Ibnd (Xreal l) (Xreal u) -> enclR E v -> Rabs (dyR (m, e) - v) <= u - l.
 Proof. exact accepted_close. Qed.
 Print Assumptions C07_accepted_close.
+
+(* tie A: the proven-sound checker over the regenerated registry (name -> class, kwargs).  kind_ok k is the
+   certified-map / determinant statement of the model kind k (MKdelta: not modelled, True). *)
+Theorem C07_registry_sound : forall l : list rentry, forallb classified l = true ->
+  List.Forall (fun e => exists k, classify e = Some k /\ kind_ok k) l.
+Proof. exact registry_sound. Qed.
+Print Assumptions C07_registry_sound.
